@@ -204,6 +204,7 @@ def one(ctx: Ctx, cs, pname, over, core=True, derive=None):
 
 
 def run(ctx: Ctx):
+    kpx.enable_bystanders(ctx)
     from ..monitors import stages
     stages.install()
     ctx.rule = ('**kern-only documents and mixed documents exported with spine_types=[**kern] (claimed core: uniform signatures before the '
